@@ -8,6 +8,7 @@ import (
 	"github.com/olareg/olareg/config"
 	"github.com/olareg/olareg/internal/verif/h"
 	"github.com/olareg/olareg/internal/verif/vrt"
+	"github.com/olareg/olareg/types"
 )
 
 // C05 — garbage collection never removes retained or recent content (sequential part; the
@@ -21,6 +22,9 @@ func gcFix() *Fix {
 	f.Index("Z", mtIdx, []string{"I1"}, "", "", nil)
 	// C: "circular" as in the repository's own test: an index artifact whose child and subject are both X
 	f.Index("C", mtIdx, []string{"X"}, "X", "application/x.test", nil)
+	// D1: an image of the docker schema 2 media types
+	f.Blob("dc", types.MediaTypeDocker2ImageConfig, []byte(`{"docker":true}`))
+	f.Image("D1", types.MediaTypeDocker2Manifest, "dc", []string{"l2"}, "", "", nil)
 	return f
 }
 
@@ -139,7 +143,7 @@ func c05Policies(tier string) []GCPolicy {
 func c05Specs(tier string) []*h.SeqSpec {
 	f := gcFix()
 	const repo = "r"
-	items := []string{"c", "l1", "l2", "e", "I1", "I2", "X", "Y", "A1", "A4", "A5", "J", "Z", "C"}
+	items := []string{"c", "l1", "l2", "e", "dc", "I1", "I2", "X", "Y", "A1", "A4", "A5", "J", "Z", "C", "D1"}
 	var specs []*h.SeqSpec
 	for _, store := range []string{"mem", "dir"} {
 		for _, pol := range c05Policies(tier) {
@@ -162,6 +166,7 @@ func c05Specs(tier string) []*h.SeqSpec {
 			macro("J", "j")
 			macro("Z", "")
 			macro("C", "")
+			macro("D1", "d") // an image of the docker schema 2 type: its config and layers are content like any other
 			// fine grained: the pieces of one image as separate steps (a collection can fall between them)
 			ops = append(ops, opPushBlob("C05", repo, f, "c"), opPushBlob("C05", repo, f, "l1"))
 			ops = append(ops, h.Op{Name: "push manifest I1 as t1 (blobs must be there)", Do: func(w *h.World) []h.Violation {
@@ -264,7 +269,9 @@ func init() {
 		Rule: "breadth-first search over all histories (bounded depth) of complete pushes of images, nested indexes, referrers, referrers of referrers, dangling and 'circular' subjects and a digest in several roles, step-by-step pushes, tag and digest deletes, virtual time (grace/2, 1.2 x grace: the directory store collects through the repository cache timer) and collection ticks delivered to the real gcTicker goroutine, for 8 (quick) / 32 (thorough) policy combinations on both stores; " +
 			"in every distinct state everything in the model's must-retain set (tagged manifests, closure over children/config/layers, referrers of retained subjects with their content, untagged manifests while untagged collection is off, everything younger than the grace period) must be served; non-trivial = a manifest is present",
 		Assume: []string{"only what every reading of the statement retains is demanded (an untagged artifact whose subject is gone is not, it is C06's documented garbage)", "tick period 15 min, grace 1 h or disabled"},
-		Specs:  func(tier string) []*h.SeqSpec { return append(append(c05Specs(tier), nestedSpecs(tier)...), reuploadSpecs(tier)...) },
+		Specs: func(tier string) []*h.SeqSpec {
+			return append(append(c05Specs(tier), nestedSpecs(tier)...), reuploadSpecs(tier)...)
+		},
 		Budget: func(tier string) time.Duration {
 			if tier == "thorough" {
 				return 14 * time.Minute
